@@ -66,7 +66,23 @@ impl Acc {
     pub fn count(&mut self, key: &str, n: u64) {
         *self.counters.entry(key.to_string()).or_insert(0) += n;
     }
+    /// digest of everything a run observed (determinism proof for checks without a transport log)
+    pub fn digest(&self) -> u64 {
+        let mut h = crate::rng::fnv1a(b"acc");
+        for (k, v) in &self.counters {
+            h = crate::rng::mix(&[h, crate::rng::fnv1a(k.as_bytes()), *v]);
+        }
+        for d in &self.distinct {
+            h = crate::rng::mix(&[h, *d]);
+        }
+        for d in &self.distinct2 {
+            h = crate::rng::mix(&[h, *d, 2]);
+        }
+        crate::rng::mix(&[h, self.sim_steps, self.evaluations, self.log_hash])
+    }
+
     pub fn merge(&mut self, o: Acc) {
+        let run_digest = o.digest();
         for (k, v) in o.counters {
             *self.counters.entry(k).or_insert(0) += v;
         }
@@ -79,7 +95,7 @@ impl Acc {
         }
         self.sim_steps += o.sim_steps;
         self.evaluations += o.evaluations;
-        self.log_hash = self.log_hash.rotate_left(7) ^ o.log_hash;
+        self.log_hash = self.log_hash.rotate_left(7) ^ run_digest;
         if self.stub_failure.is_none() {
             self.stub_failure = o.stub_failure;
         }
